@@ -4,6 +4,8 @@
 //verif:hook p2p/net/swarm Swarm.TransportForDialing
 //verif:hook p2p/net/swarm blackHoleDetector.RecordResult
 //verif:obligation C20.d wiring of the detector into Swarm.dialAddr: every dial that reaches a transport reports exactly one result for exactly the dialed address, and the result is "success" iff the transport returned a connection - also when the dial's context was cancelled while the transport was dialing (a success while blocked must always be able to clear the state); a dial that never reaches a transport (dial to self, context already done, no transport) reports nothing
+//verif:shard VerifC20eWindowHistory 8
+//verif:obligation C20.e the success counter through its public API on every history of 9 (thorough 10) dial results from the constructor (N = 3, MinSuccesses 1..2), against the statement: probing until a full window exists, then blocked iff the last N results since the last recovery hold fewer than the required successes, a single success while blocked clears everything - in particular across recoveries, where state left over from before the reset must not matter
 //verif:bound one dial per run; transport outcome, mid-dial cancellation and the authenticated peer symbolic
 //verif:stub transport / connection stubs; blackHoleDetector.RecordResult hooked to a recorder (the detector itself is C20.a-c)
 //verif:outside which dials the dial worker issues (C05.f), metrics
@@ -92,4 +94,52 @@ func VerifC20dDialAddrWiring() {
 	vAssert(tpt.dials == 1 && len(recs) == 1, "a dial reports exactly one result")
 	vAssert(recs[0].a.Equal(addr), "the result is reported for the dialed address")
 	vAssert(recs[0].ok == !tpt.fail, "the reported result is success iff the transport returned a connection")
+}
+
+// ---- C20.e: the window through the public API, across recoveries ----
+
+func VerifC20eWindowHistory() {
+	first := vCase(8) // split: the first three results
+	const N = 3
+	min := 1 + vCase(2)
+	b := &BlackHoleSuccessCounter{N: N, MinSuccesses: min, Name: "verif"}
+	K := 9 + vTier()
+	var window []bool // reference: the results since the last recovery, at most the last N
+	state := blackHoleStateProbing
+	for i := 0; i < K; i++ {
+		var ok bool
+		if i < 3 {
+			ok = first&(1<<i) != 0
+		} else {
+			ok = vBool()
+		}
+		b.RecordResult(ok)
+		if state == blackHoleStateBlocked && ok {
+			window = nil // a single success while blocked clears the state
+			vCover("recovered")
+		} else {
+			window = append(window, ok)
+			if len(window) > N {
+				window = window[1:]
+			}
+		}
+		succ := 0
+		for _, r := range window {
+			if r {
+				succ++
+			}
+		}
+		switch {
+		case len(window) < N:
+			state = blackHoleStateProbing
+		case succ >= min:
+			state = blackHoleStateAllowed
+		default:
+			state = blackHoleStateBlocked
+		}
+		vAssert(b.State() == state, "after every result the state is: probing until a full window exists, then blocked iff the last N results (since the last recovery) hold fewer than the required successes")
+		if state == blackHoleStateBlocked {
+			vCover("blocked")
+		}
+	}
 }
